@@ -17,7 +17,7 @@ transform_points, the TransformBy impls, Distance2::to_3d / Distance3::to_2d (a,
 SurfacePoint::reversed keeps the point and negates the normal.
 Mesh::transform moves the vertices on every path (no isometry short-cut); Mesh::project_with_tol applies its optional transform to the query once and
 judges the angle from that moved query (rules shared with C02); Plane3::intersection_distance = (n*d - p).n / (n.m) with n, d of the same plane.
-A rebuilt Curve3 merges vertices by Euclidean distance and the crossing search treats exactly axis-aligned probes with the closed slab test (rules shared with C13 / C06). Round 5: the Plane3 (normal, d) convention - constructors, inverted_normal (negates normal AND d), signed distance, projection - shared with C19."""
+A rebuilt Curve3 merges vertices by Euclidean distance and the crossing search treats exactly axis-aligned probes with the closed slab test (rules shared with C13 / C06). Round 5: the Plane3 (normal, d) convention - constructors, inverted_normal (negates normal AND d), signed distance, projection - shared with C19. Round 6: the blended normal / direction of a station inside an edge is the slerp of the two vertex vectors by the station fraction; the deviation functions' surface-normal fallback is taken under an ABSOLUTE 1e-6 test (shared with C16)."""
 NOT_DECIDED = "invariance of any measurement (distances, deviations, fits) under a change of frame: numerical; a general frame-dependence taint analysis was rejected because correct code uses raw coordinates that cancel - only the narrow POSDOT form (a lone projection n.p of a stored position) is decided"
 ASSUMPTIONS = ["nalgebra: &Isometry * OPoint applies rotation and translation; &Isometry * Unit<Vector> / * Vector applies the rotation only"]
 
